@@ -532,6 +532,36 @@ def run_rule(items, run, mon):
             if all(ord(c) < 128 for c in name):
                 _rdec(run, name)
                 run.tags.add('rule-name-malformed')
+    # ---- the directory as a whole: every rule of the case written through the real RuleMgr.create_rule, read back
+    # through the real get_rules() - exactly the rules written come back, each once (judged on the fields and the
+    # class of the decoded objects, not on their own notion of equality)
+    wf_ = [(it['chain'], _mk_rule(it)) for it in items if it['k'] == 'rule' and it['wf']]
+    if wf_:
+        import collections as _collections
+        import json as _json
+        import os as _os
+        import shutil as _shutil
+        import tempfile as _tempfile
+        d_ = _tempfile.mkdtemp(dir='/var/tmp', prefix='tmverif-rules-')
+        try:
+            _os.makedirs(_os.path.join(d_, 'rules'))
+            _os.makedirs(_os.path.join(d_, 'owners'))
+            with open(_os.path.join(d_, 'owners', 'o'), 'w'):
+                pass
+            mgr_ = rulefile.RuleMgr(_os.path.join(d_, 'rules'), _os.path.join(d_, 'owners'))
+            want_ = set()
+            for chain_, rule_ in wf_:
+                mgr_.create_rule(chain_, rule_, 'o')
+                want_.add(_json.dumps(_rule_value(chain_, rule_)))
+            back_ = list(mgr_.get_rules())
+            got_ = _collections.Counter(_json.dumps(_rule_value(c_, r_)) for c_, r_ in back_)
+            if set(got_) != want_ or any(v_ != 1 for v_ in got_.values()):
+                mon.hit('rule-directory-roundtrip', 'rulefile.RuleMgr.get_rules',
+                        'wrote %d distinct rules, get_rules() returned %d: missing %r, unexpected %r' % (
+                            len(want_), len(back_), sorted(want_ - set(got_))[:3], sorted(set(got_) - want_)[:3]))
+            run.tags.add('rule-directory')
+        finally:
+            _shutil.rmtree(d_, ignore_errors=True)
 
 
 # ======================================================================================
